@@ -54,4 +54,13 @@ def liveCalls (c : Consts) : Nat → MonSt → List Call
   | 0, _ => []
   | n + 1, s => let r := round c 0 .ok s; r.2.2 ++ liveCalls c n r.1
 
+/-- a whole life of the helper: rounds under an arbitrary environment and arbitrary overshoots, ending at the first round
+    whose loop condition fails (the rest of the schedule is never looked at - the process is gone).
+    Returns the last state and whether the helper is still running. -/
+def runEnv (c : Consts) : MonSt → List (Nat × Env) → MonSt × Bool
+  | s, [] => (s, true)
+  | s, (δ, env) :: rest =>
+    let r := round c δ env s
+    if r.2.1 then runEnv c r.1 rest else (r.1, false)
+
 end Jug.KeepAlive
